@@ -51,13 +51,22 @@ def call_real(inp):
     K = int(inp.get("mag", 1))
     if K != 1:
         H, W, s, pts = H * K, W * K, s * K, pts * K
+    def kw(d_sigma, d_stride):
+        """a value equal to the documented default of the entry point is LEFT OUT (the default is part of the interface)"""
+        out = {}
+        if sigma != d_sigma:
+            out["sigma"] = sigma
+        if s != d_stride:
+            out["output_stride"] = s
+        return out
+
     if api in ("fn", "fn3"):
         if v == "single":
             x = pts[:, 0] if api == "fn3" else pts                                   # rank 3 or rank 4 input
-            return generate_confmaps(x, (H, W), sigma=sigma, output_stride=s)
+            return generate_confmaps(x, (H, W), **kw(1.5, 2))
         if v == "multi":
-            return generate_multiconfmaps(pts, (H, W), num_instances=ninst, sigma=sigma, output_stride=s, is_centroids=False)
-        return generate_multiconfmaps(pts[:, :, 0], (H, W), num_instances=ninst, sigma=sigma, output_stride=s, is_centroids=True)
+            return generate_multiconfmaps(pts, (H, W), num_instances=ninst, **kw(1.5, 2), **({} if K == 1 else {"is_centroids": False}))
+        return generate_multiconfmaps(pts[:, :, 0], (H, W), num_instances=ninst, is_centroids=True, **kw(1.5, 2))
     # The DataPipe classes consume a STREAM of examples: the judged example is alone (spos 0), first of two
     # (spos 1) or second after an example of another image size and other keypoints (spos 2).
     spos = inp.get("spos", 0)
@@ -77,9 +86,9 @@ def call_real(inp):
     other = example(H2, W2, torch.flip(pts, dims=[-1]) * 0.5 + 1.0)
     stream = {0: [example(H, W, pts)], 1: [example(H, W, pts), other], 2: [other, example(H, W, pts)]}[spos]
     if v == "single":
-        dp = ConfidenceMapGenerator(stream, sigma=sigma, output_stride=s)
+        dp = ConfidenceMapGenerator(stream, **kw(1.5, 1))
     else:
-        dp = MultiConfidenceMapGenerator(stream, sigma=sigma, output_stride=s, centroids=(v == "centroid"))
+        dp = MultiConfidenceMapGenerator(stream, centroids=(v == "centroid"), **kw(1.5, 1))
     outs = list(dp)
     if len(outs) != len(stream):
         raise AssertionError("stream of %d examples gave %d outputs" % (len(stream), len(outs)))
